@@ -859,7 +859,11 @@ ovni_ev_add_jumbo(struct ovni_ev *ev, const uint8_t *buf, uint32_t bufsize)
 
 	size_t totalsize = evsize + bufsize;
 
-	if (totalsize >= OVNI_MAX_EV_BUF)
+	/* Leave room for the two flush events that follow the event when
+	 * the buffer is flushed, so they never cause a nested flush */
+	size_t flushsize = 2 * sizeof(ev->header);
+
+	if (totalsize + flushsize >= OVNI_MAX_EV_BUF)
 		die("event too large");
 
 	/* Check if the event fits or flush first otherwise */
